@@ -56,10 +56,11 @@ def tree_ir(t, with_sources=False):
     sym = t.symbol
     if sym.is_terminal:
         kind, val = leaf_kind_val(sym)
-        r = {"sym": "", "term": True, "kind": kind, "val": val, "ch": []}
+        r = {"sym": "", "term": True, "kind": kind, "val": val, "ch": [], "helper": False}
     else:
-        r = {"sym": sym.format_as_spec() if sym.is_non_terminal else "<*slice*>", "term": False,
-             "kind": "", "val": [], "ch": [tree_ir(c, with_sources) for c in t.children]}
+        name = sym.format_as_spec() if sym.is_non_terminal else "<*slice*>"
+        r = {"sym": name, "term": False, "kind": "", "val": [], "ch": [tree_ir(c, with_sources) for c in t.children],
+             "helper": name.startswith("<__") or name.startswith("<*")}
     r["snd"] = t.sender or ""
     r["rcp"] = t.recipient or ""
     r["ro"] = bool(t.read_only)
